@@ -1,5 +1,7 @@
 import CLModel.Proto
 import CLModel.Merge.Channels
+import CLModel.Merge.History
+import CLModel.Ops.C18
 namespace Ops.C15
 open Proto Merge
 
@@ -76,6 +78,43 @@ def opEnts (toks : List String) : String :=
     | none => showRes (.error .emptySequence)
     | some d => showRes (.ok (serialize d))
 
+/-! ### round 5: a whole process history (`c15.hist`) -/
+
+/-- one step of `MergeH`: `mchan <file name> <n> <text>*` is `merge_channels(name, resources)`; everything else is an
+    operation of the C18 machine in the wire form of `c18.mrun` (`getparser`, `read`, `rewalk`, `parse`, `compare`,
+    `lint`, `merge`, `serialize`, `chan`, …) -/
+def parseStep : List String → Option (MergeH.Op × List String)
+  | "mchan" :: n :: rest => do
+    let name ← parseText n
+    let (ts, r) ← Ops.C18.parseArrs rest
+    pure (.merge name ts, r)
+  | toks => (Ops.C18.parseOpM toks).map (fun (op, r) => (.other op, r))
+
+def parseSteps : Nat → List String → Option (List MergeH.Op)
+  | _, [] => some []
+  | 0, _ => none
+  | fuel + 1, toks => do
+    let (op, rest) ← parseStep toks
+    let ops ← parseSteps fuel rest
+    pure (op :: ops)
+
+/-- what C15 compares of a step: the merge result, the parser class of a lookup; `-` for the rest (C18's business) -/
+def showStep : MergeH.Out → String
+  | .merged r => showRes r
+  | .other (.parser (some (cls, _))) => "gp " ++ showText cls
+  | .other (.parser none) => "gp none"
+  | .other (.chan r) => showRes r
+  | .other _ => "-"
+
+/-- c15.hist <EP> <step>* : a whole history through `MergeH.step` from the state of a fresh interpreter -/
+def opHist (toks : List String) : String :=
+  match Ops.C18.parseEp toks with
+  | none => "bad-args"
+  | some (ep, rest) =>
+    match parseSteps (rest.length + 1) rest with
+    | none => "bad-args"
+    | some ops => " || ".intercalate ((MergeH.run { HistM.S.init with ep := ep } ops).2.map showStep)
+
 def ops : List (String × (List String → String)) :=
-  [("merge.texts", opTexts), ("merge.channels", opChannels), ("merge.ents", opEnts)]
+  [("merge.texts", opTexts), ("merge.channels", opChannels), ("merge.ents", opEnts), ("c15.hist", opHist)]
 end Ops.C15
